@@ -389,6 +389,36 @@ def eliminate_bound(cons, bv, unroll_max=8):
                 break
         if progressed:
             continue
+        # a bound variable hidden inside  If(c, a, b) == e : split the term on c
+        split = None
+        for ci, c in enumerate(cs):
+            if isz(c) and z3.is_eq(c) and c.arg(0).sort() == z3.IntSort() and any(_contains(c, b[0]) for b in bvs):
+                for side in (0, 1):
+                    e = c.arg(side)
+                    if z3.is_app_of(e, z3.Z3_OP_ITE):
+                        split = (ci, side, e)
+                        break
+            if split:
+                break
+        if split is None:
+            # boolean  If(c, A, B)  constraint mentioning a bound variable
+            for ci, c in enumerate(cs):
+                if isz(c) and z3.is_app_of(c, z3.Z3_OP_ITE) and any(_contains(c, b[0]) for b in bvs):
+                    rest = cs[:ci] + cs[ci + 1:]
+                    work.append((rest + _conjuncts([c.arg(0)]) + _conjuncts([c.arg(1)]), list(bvs)))
+                    work.append((rest + _conjuncts([z3.Not(c.arg(0))]) + _conjuncts([c.arg(2)]), list(bvs)))
+                    split = 'done'
+                    break
+            if split == 'done':
+                continue
+        if split is not None:
+            ci, side, e = split
+            other = cs[ci].arg(1 - side)
+            cond, a_, b_ = e.arg(0), e.arg(1), e.arg(2)
+            rest = cs[:ci] + cs[ci + 1:]
+            work.append((rest + _conjuncts([cond]) + [a_ == other], list(bvs)))
+            work.append((rest + _conjuncts([z3.Not(cond)]) + [b_ == other], list(bvs)))
+            continue
         # no defining equality: expand a concrete small range
         for k, (a, lo, hi) in enumerate(bvs):
             lo_, hi_ = simp(lo), simp(hi)
@@ -399,7 +429,13 @@ def eliminate_bound(cons, bv, unroll_max=8):
                 progressed = True
                 break
         if not progressed:
-            raise Unsupported('cannot eliminate summation variable(s) %s' % [str(b[0]) for b in bvs])
+            # an infeasible alternative contributes nothing to the sum
+            sv = z3.Solver()
+            sv.set('timeout', 2000)
+            sv.add(*[B(c) for c in cs])
+            if sv.check() == z3.unsat:
+                continue
+            raise Unsupported('cannot eliminate summation variable(s) %s in %s' % ([str(b[0]) for b in bvs], [str(c)[:60] for c in cs][:14]))
     return done
 
 
